@@ -294,7 +294,7 @@ func checkC19(c caseC19) (viol string, nontrivial bool, feats []string) {
 	} else {
 		feats = append(feats, fmt.Sprintf("jumps:%s", bucket(jumps)))
 	}
-	nontrivial = jumps >= 1 || blocks >= 1 || whole.err != nil || c.Class == "runtime-failure"
+	nontrivial = jumps >= 1 || blocks >= 1 || whole.err != nil || c.Class == "runtime-failure" || c.Class == "stack-overflow"
 	return "", nontrivial, feats
 }
 
@@ -355,6 +355,22 @@ func TestC19(t *testing.T) {
 		}
 		lay := gen.GenLayout(t, toks, gen.LayoutOpts{Plain: 90, NoInvalid: true})
 		src, _ := renderChecked(toks, lay)
+		if gen.Chance(t, 1, "overflow") {
+			// a run that ends in the operand stack limit (not modelled by R1,
+			// which is not consulted for this family)
+			class = "stack-overflow"
+			var sb strings.Builder
+			if gen.Bool(t, "bynesting") {
+				n := gen.Int(t, 1024, 1030, "levels")
+				sb.WriteString("print 5\nprint " + strings.Repeat("1+(", n) + "1" + strings.Repeat(")", n) + "\n")
+			} else {
+				for i := 0; i < 1024; i++ {
+					fmt.Fprintf(&sb, "var v%d = %d\n", i, i)
+				}
+				sb.WriteString("print 5\nprint v3 + v4\n")
+			}
+			src = sb.String()
+		}
 		c := caseC19{Src: src, Class: class}
 		_, c.Script = drawScript(t, len(src))
 		viol, nt, feats := checkC19(c)
